@@ -1,2 +1,82 @@
-(* placeholder until the proofs land *)
-From Klepto Require Import CacheCore.
+(* C05  Capacity: a bounded cache never grows past its bound.
+   Only statements, each closed by a lemma of Cache/CoreSize.v / CoreStep.v, with Print Assumptions. *)
+From Klepto Require Import OMap CacheDict CacheDictFacts CacheCore CoreInv CoreStep CoreSize.
+
+(* the bookkeeping invariant holds initially and is preserved by EVERY operation of every
+   decorator, including bulk load and clear (so it holds in every reachable state) *)
+Theorem C05_wf_initial : forall c c0, wf_c c0 -> WF c (init_state c0).
+Proof. exact WF_init_any. Qed.
+
+Theorem C05_wf_reachable : forall c ops s, WF c s -> Forall op_ok ops -> WF c (run c s ops).
+Proof. exact WF_run. Qed.
+
+(* after every call: resident <= max(maxsize, resident before), for all four bounded algorithms,
+   standard and safe, archived or not, purge or not, also from over-full states (after load()) *)
+Theorem C05_bounded : forall c s kr fr orc, WF c s -> bounded (c_alg c) = true -> orc_ok c s kr orc ->
+  size (smem (fst (call c s kr fr orc))) <= Z.max (c_max c) (size (smem s)).
+Proof. exact call_size_bounded. Qed.
+
+(* the eviction loops terminate with a victim: no IndexError escapes *)
+Theorem C05_no_index_error : forall c s kr fr orc ev, WF c s -> bounded (c_alg c) = true -> orc_ok c s kr orc ->
+  snd (call c s kr fr orc) <> ORaise EIndexError ev.
+Proof. exact call_never_index_error. Qed.
+
+(* a cache that starts within its bound never exceeds maxsize (histories without bulk load) *)
+Theorem C05_never_exceeds : forall c ops s, bounded (c_alg c) = true -> WF c s ->
+  size (smem s) <= c_max c -> hist_ok c s ops -> size (smem (run c s ops)) <= c_max c.
+Proof. exact never_exceeds. Qed.
+
+(* maxsize=0 keeps nothing resident *)
+Theorem C05_maxsize_zero : forall c s kr fr orc, c_alg c = NO ->
+  size (smem (fst (call c s kr fr orc))) <= size (smem s) /\
+  (forall k v ev, kr = KOk k -> snd (call c s kr fr orc) = ORet v ev -> smem (fst (call c s kr fr orc)) = []).
+Proof. exact call_size_no. Qed.
+
+(* maxsize=None never evicts *)
+Theorem C05_maxsize_none : forall c s kr fr orc, c_alg c = INF ->
+  forall k v, get (smem s) k = Some v -> get (smem (fst (call c s kr fr orc))) k = Some v.
+Proof. exact call_inf_monotone. Qed.
+
+(* purge enabled on an archived cache: an overflow empties the in-memory cache *)
+Theorem C05_purge_empties : forall c s k fr orc v ev, bounded (c_alg c) = true -> c_purge c = true ->
+  archived_ c s = true -> get (smem s) k = None -> size (smem s) + 1 > c_max c ->
+  snd (call c s (KOk k) fr orc) = ORet v ev -> smem (fst (call c s (KOk k) fr orc)) = [].
+Proof. exact call_purge_empties. Qed.
+
+(* however maxsize is passed: the algorithm selected depends on the value only *)
+Theorem C05_dispatch : forall a, bounded a = true ->
+  dispatch a (MInt 0) = (NO, 0) /\ dispatch a MNone = (INF, -1) /\
+  forall n, n <> 0 -> dispatch a (MInt n) = (a, n).
+Proof.
+  intros a Ha. destruct a; try discriminate; (split; [reflexivity|split; [reflexivity|]]);
+    intros n Hn; cbn; destruct (Z.eqb_spec n 0); congruence.
+Qed.
+
+(* non-vacuity: an over-full LRU state (3 entries bulk loaded into a maxsize-2 cache) meets the
+   hypotheses; a new key is inserted and evicted again, the size stays 3 *)
+Example C05_witness :
+  let c := mkCfg LRU 2 false false false in
+  let s := mkS (mkC [(1, 11); (2, 12); (3, 13)] ANull ANull) [] [] [] 0 0 0 in
+  WF c s /\ orc_ok c s (KOk 4) 0 /\
+  size (smem (fst (call c s (KOk 4) (Ret 14) 0))) = 3 /\
+  size (smem (run c (init_state (mkC [] ANull ANull))
+                 [Call (KOk 1) (Ret 11) 0; Call (KOk 2) (Ret 12) 0; Call (KOk 3) (Ret 13) 0])) = 2.
+Proof.
+  cbv zeta. split; [|split; [|split]].
+  - split.
+    + unfold wf_c; cbn. repeat split; repeat constructor; cbn; intuition discriminate.
+    + cbn. split; [intros k; reflexivity|intros k []].
+  - intros H; discriminate H.
+  - vm_compute. reflexivity.
+  - vm_compute. reflexivity.
+Qed.
+
+Print Assumptions C05_wf_initial.
+Print Assumptions C05_wf_reachable.
+Print Assumptions C05_bounded.
+Print Assumptions C05_no_index_error.
+Print Assumptions C05_never_exceeds.
+Print Assumptions C05_maxsize_zero.
+Print Assumptions C05_maxsize_none.
+Print Assumptions C05_purge_empties.
+Print Assumptions C05_dispatch.
